@@ -64,6 +64,7 @@ type ConnObs struct {
 	Key                 *world.Key
 	Completed           bool
 	Refused             bool // the dial itself was refused (listener already closed)
+	AuthSentAt          time.Duration // classes stall / stall-bad-addr: when the client sent the bytes that authenticate it (-1 otherwise)
 }
 
 type Obs struct {
@@ -154,7 +155,7 @@ func Build(s Spec, o *Obs, newMetrics func() service.ServiceMetrics) func() {
 		var recordedServer []byte
 		run := func(i int, cs ConnSpec) *ConnObs {
 			key := keys[cs.Cipher]
-			co := &ConnObs{Spec: cs, Key: key}
+			co := &ConnObs{Spec: cs, Key: key, AuthSentAt: -1}
 			okDst := fmt.Sprintf("93.184.216.34:%d", 8000+i)
 			rstDst := fmt.Sprintf("93.184.216.35:%d", 8000+i)
 			_, _ = okDst, rstDst
@@ -182,6 +183,27 @@ func Build(s Spec, o *Obs, newMetrics func() service.ServiceMetrics) func() {
 				if i == 0 {
 					recordedServer = cl.Got
 				}
+			case "stall", "stall-bad-addr":
+				// the client sends exactly the bytes that authenticate it (salt and the first length
+				// chunk), is silent for 10 s, and only then sends the address (valid / malformed)
+				co.Want, co.WantAuth, co.Completed = "OK", true, cs.Class == "stall"
+				wire = world.EncodeStream(key, seed, world.Addr(okDst), upPayload)
+				if cs.Class == "stall-bad-addr" {
+					co.Want = "ERR_READ_ADDRESS"
+					wire = world.EncodeStream(key, seed, []byte{0x07, 1, 2, 3, 4, 5, 6})
+				}
+				hs := 50 // the server looks for the key once it has the first 50 bytes, whatever the cipher
+				cl := world.Dial(from)
+				rd := vrt.Spawn("reader", func() { cl.ReadAll() })
+				co.AuthSentAt = vrt.NowQuiet().Sub(vrt.Epoch)
+				cl.Send(wire[:hs], 0)
+				vrt.Sleep(10 * time.Second)
+				cl.Send(wire[hs:], 0)
+				vrt.Sleep(time.Second)
+				cl.CloseWrite()
+				vrt.Join(rd)
+				cl.Close()
+				finish(cl)
 			case "cipher":
 				co.Want = "ERR_CIPHER"
 				wire = make([]byte, 80+cs.Var)
